@@ -11,7 +11,8 @@ from fractions import Fraction
 import numpy as np
 from . import common
 
-THEOREM_FILES = ['NumqiProps/C05.lean', 'NumqiProofs/DecisionC05.lean', 'NumqiProofs/EntangleAccept.lean', 'NumqiProofs/EntangleBridge.lean']
+BRIDGE = 'NumqiProofs/EntangleBridge.lean'      # C05 <-> C06 bridge theorems: imports ent2's NumqiProofs/BoundaryLemmas.lean read-only
+THEOREM_FILES = ['NumqiProps/C05.lean', 'NumqiProofs/DecisionC05.lean', 'NumqiProofs/EntangleAccept.lean', BRIDGE]
 LEVEL = 'proof'
 RULE = ('correspondence ops: Gaussian-integer Hermitian matrices (random, diagonal, unit, sparse) for every dimension list in '
         '(2,2),(2,3),(3,2),(3,3),(2,4),(2,2,2),(2,3,2),(3,2,2),(2,2,2,2) through is_ppt / is_generalized_ppt / check_reduction_witness / '
@@ -253,7 +254,22 @@ def render_thresholds(T):
     return '\n'.join(L) + '\n'
 
 
+def _bridge_prerequisite(ctx):
+    """the bridge module depends on a file of another property (C06); if that file does not build at the moment (its owner is editing
+    it) the bridge obligations are left out of this run - with a note - instead of being blamed on C05"""
+    if BRIDGE not in THEOREM_FILES:
+        THEOREM_FILES.append(BRIDGE)
+    ok, _ = common.lake_build(['NumqiProofs.BoundaryLemmas'])
+    if not ok:
+        THEOREM_FILES.remove(BRIDGE)
+        if ctx is not None:
+            ctx.note('NumqiProofs/BoundaryLemmas.lean (C06) does not build at the moment: the C05<->C06 bridge theorems (symExt_isSymExt, sep_subset_kext, '
+                     'ptB_models_agree) were not audited in this run')
+
+
 def translate(ctx):
+    if ctx is not None:
+        _bridge_prerequisite(ctx)
     T = extract_thresholds()
     txt = render_thresholds(T)
     os.makedirs(os.path.dirname(GEN), exist_ok=True)
